@@ -283,6 +283,10 @@ def run(ctx, replay):
             x["id"] = i + 1
             # harness-only dimension: every fifth behaviour with filters runs the real imap.filter.command
             x["fkind"] = "command" if (x["cfg"]["nf"] > 0 and i % 5 == 2) else "scripted"
+            # harness-only dimensions of the storage configuration: a tiny appendlimit (documented not to
+            # apply to deliveries), compressed message store
+            x["limit"] = i % 3 == 1
+            x["comp"] = ["", "", "", "zstd", "", "lz4", ""][i % 7]
     ctx.log("%d behaviours to replay" % len(behs))
 
     # ---- replay on the real storage ----------------------------------------------------------
@@ -321,6 +325,7 @@ def run(ctx, replay):
 
     ok = drift = nfind = 0
     preds = {}
+    bad = []
     for t, recs in sorted(verdicts.items()):
         if t in selftest:
             accepted = any(not r["drift"] for r in recs)
@@ -346,10 +351,17 @@ def run(ctx, replay):
         else:
             for v in viol:
                 preds[v] = preds.get(v, 0) + 1
-            what = "storage behaviour violates " + ",".join(viol)
-            ctx.violation(what, {"property": PID, "behaviour": by_id[t], "trace": full.get(t, by_t[t]),
-                                 "violated": viol, "verdict": recs,
-                                 "how": "bin/check X05 --replay <this file>"})
+            bad.append((t, viol, recs))
+    # the stored artefacts (the first few) should be the informative ones: traces violating a predicate
+    # that no open finding can explain come first
+    known_preds = set().union(*[DEV_PREDS[d] for d in odevs]) if odevs else set()
+    common = DEV_PREDS["BlobLeak"] | DEV_PREDS["EarlyNotify"]    # seen in a third of all traces anyway
+    bad.sort(key=lambda x: (-len(set(x[1]) - known_preds), -len(set(x[1]) - common), len(x[1]), x[0]))
+    for t, viol, recs in bad:
+        what = "storage behaviour violates " + ",".join(viol)
+        ctx.violation(what, {"property": PID, "behaviour": by_id[t], "trace": full.get(t, by_t[t]),
+                             "violated": viol, "verdict": recs,
+                             "how": "bin/check X05 --replay <this file>"})
     if selftest:
         ctx.cov["binding_selftest"] = "corrupted-field and dropped-event traces rejected"
     ctx.cov["traces_validated_against_impl"] = ok
